@@ -326,7 +326,12 @@ class cisco_type7(uh.GenericHandler):
         if len(hash) < 2:
             raise uh.exc.InvalidHashError(cls)
         salt = int(hash[:2])  # may throw ValueError
-        return cls(salt=salt, checksum=hash[2:].upper())
+        checksum = hash[2:]
+        # NOTE: only ascii text is case-normalized -- str.upper() expands some
+        #       non-ascii characters into hex digits (e.g. u"\ufb00" -> "FF").
+        if checksum.isascii():
+            checksum = checksum.upper()
+        return cls(salt=salt, checksum=checksum)
 
     def __init__(self, salt=None, **kwds):
         super().__init__(**kwds)
